@@ -17,6 +17,7 @@ var Registry = map[string]func() int{
 	"C07": C07,
 	"C08": C08,
 	"C12": C12,
+	"C14": C14,
 }
 
 func IDs() []string {
